@@ -106,7 +106,9 @@ def run_exec(case):
     counters = dict.fromkeys(REQUIRED_COUNTERS, 0)
     viol, sigs = [], set()
     feats = rnd.sample(["classes", "multi", "pdeps", "weak", "fwd", "tools", "menv", "if", "roots2", "checkoutscript"], rnd.randrange(2, 6)) + ["src", "tools"]
-    m = projgen.gen_model(rnd, rnd.randrange(4, 8), feats)
+    m = bobapi.gen_valid_model(rnd, lambda: projgen.gen_model(rnd, rnd.randrange(4, 8), feats))
+    if m is None:
+        return result("trivial", counters=counters, note="no valid model")
     isolate = rnd.choice([None, None, ".*[135]$", ".*"])
     for name, r in m["recipes"].items():
         # import SCMs travel inside the job specification: half of them go to a sub-directory of the source workspace
